@@ -224,6 +224,8 @@ func (r *FeatureLocal) ApproveOrDenyWrite(msg *api.Message, err model.ErrorType)
 		return
 	}
 
+	verifYield("ApproveOrDenyWrite.afterLookup")
+
 	// do we have enough approvals?
 	r.muxWriteReceived.Lock()
 	defer r.muxWriteReceived.Unlock()
